@@ -38,11 +38,15 @@ cvars == <<grp, rs, sh, sched>>
 Var(n) == [k |-> "var", name |-> n, acc |-> <<>>]
 Tx(s) == [k |-> "text", s |-> s]
 Pr(id, e) == [k |-> "print", id |-> id, e |-> e, dirs |-> <<>>]
+\* three directives: the parser's slice then has spare capacity, where an
+\* append that does not copy first would write
+D3 == <<[name |-> "escapeHtml", args |-> <<>>], [name |-> "id", args |-> <<>>], [name |-> "noAutoescape", args |-> <<>>]>>
+Pr3(id, e) == [k |-> "print", id |-> id, e |-> e, dirs |-> D3]
 NoBody == [has |-> FALSE, body |-> <<>>]
 P1(n) == <<[name |-> n, opt |-> FALSE]>>
 
 One == [params |-> P1("x"), nsa |-> "", ta |-> "",
-        body |-> <<Pr("q1", Var("x")), Tx("A"), Pr("q2", Var("x"))>>]
+        body |-> <<Pr("q1", Var("x")), Tx("A"), Pr3("q2", Var("x"))>>]
 Two == [params |-> P1("xs"), nsa |-> "", ta |-> "",
         body |-> <<[k |-> "foreach", kw |-> "foreach", var |-> "i", e |-> Var("xs"),
                     body |-> <<Pr("q3", Var("i"))>>, empty |-> NoBody]>>]
@@ -77,7 +81,7 @@ Groups == IF GSize = 2
 
 TheCfg == IF CfgName = "oblig" THEN [oblig |-> <<"exclaim">>, dirs |-> {"exclaim"}, fns |-> NoFn] ELSE NoCfg
 
-Sh0 == [dirs |-> [id \in PrintIds |-> <<>>], memo |-> [x \in {} |-> <<>>]]
+Sh0 == [dirs |-> [id \in PrintIds |-> IF id = "q2" THEN D3 ELSE <<>>], memo |-> [x \in {} |-> <<>>]]
 
 ProgOf(c) == [bundle |-> TheBundle, entry |-> Cases[c].t, data |-> DataSets[Cases[c].d], ij |-> NoIJ,
               glob |-> [x \in {} |-> Null], plan |-> [kind |-> "none"], cfg |-> TheCfg]
